@@ -58,7 +58,7 @@ def cmdServerNick (c : Ctx) (sid : Id) (m : IrcMsg) : Res Ctx := do
     return sendSvc c (srv c "433" ["*", p0, "Nickname is already in use"])
   let id : Id := ⟨s.id.id, fnv64 p0⟩
   match createSession c.st id "" s.lastActivity with
-  | none => pure (sendSvc c (srv c "ERROR" ["Could not create session for " ++ p0 ++ ": MaxSessions limit reached"]))
+  | none => pure (sendSvc c (srv c "NOTICE" [s.ircPrefix.name, "Could not create session for " ++ p0 ++ ": MaxSessions limit reached"]))
   | some st =>
     let c := { c with st := st }
     let p3 ← param m 3
@@ -362,6 +362,11 @@ def cmdServerSvsnick (c : Ctx) (_sid : Id) (m : IrcMsg) : Res Ctx := do
   match AMap.get c.st.nicks (nickToLower p0) with
   | none => pure (sendSvc c (srv c "401" ["*", p0, "No such nick/channel"]))
   | some tid =>
+    match AMap.get c.st.nicks (nickToLower p1) with
+    | some other =>
+      if other != tid then
+        return sendSvc c (srv c "433" ["*", p1, "Nickname is already in use"])
+    | none => pure ()
     let t ← getS c tid
     let oldPrefix := t.ircPrefix
     let oldNick := nickToLower p0
